@@ -4,6 +4,7 @@ package main
 // what each call returned; evaluates HMAC/PBKDF2/one-shot table cases with the real code.
 
 import (
+	"fmt"
 	"bufio"
 	"bytes"
 	"crypto/hmac"
@@ -47,7 +48,15 @@ func c04Key(n int) []byte {
 	return b
 }
 
+var reusedMac = map[int]hash.Hash{}
+
 func c04Play(h hash.Hash, ops []hashOp, ev *evw) {
+	// a panic in any call ends the behaviour with an event the specification has no action for
+	defer func() {
+		if p := recover(); p != nil {
+			ev.emit(map[string]interface{}{"ev": "panic", "what": fmt.Sprint(p)})
+		}
+	}()
 	pos := 0
 	// the slices earlier Sum calls returned (kept, not copied) and their values at the time
 	var kept, snap [][]byte
@@ -196,6 +205,18 @@ func c04table(args []string) error {
 			mac := hmac.New(sm3.New, c04Key(gi("klen")))
 			mac.Write(c04Msg(0, 0, gi("mlen")))
 			got = mac.Sum(nil)
+			// the same through ONE HMAC object per key that is Reset between messages (crypto/hmac then re-creates or restores
+			// the inner and outer states of the underlying hash)
+			old := reusedMac[gi("klen")]
+			if old == nil {
+				old = hmac.New(sm3.New, c04Key(gi("klen")))
+				reusedMac[gi("klen")] = old
+			}
+			old.Reset()
+			old.Write(c04Msg(0, 0, gi("mlen")))
+			if s := old.Sum(nil); string(s) != string(got) {
+				got = append([]byte("REUSED!="), s...)
+			}
 		case "pbkdf2":
 			got = pbkdf2.Key(c04Key(gi("plen")), c04Msg(0, 0, gi("slen")), gi("iter"), gi("dklen"), sm3.New)
 		}
